@@ -56,6 +56,15 @@ func init() {
 		if os.Getenv("DBGERRPROP") != "" {
 			surveyErrProp(p)
 		}
+		if os.Getenv("DBGRETP") != "" {
+			surveyRetainParam(p)
+		}
+		if os.Getenv("DBGSEL") != "" {
+			surveySelectors(p)
+		}
+		if os.Getenv("DBGS2AP") != "" {
+			surveyS2AP(p)
+		}
 		if os.Getenv("DBGOVW") != "" {
 			surveyOverwritten(p)
 		}
@@ -672,6 +681,197 @@ func surveyDirectRead(p *Program) {
 					}
 				}
 				fmt.Printf("DIRECTREAD %s: %s: %s count-used=%v\n", p.pos(ci.Pos()), fname(f), n, used)
+			}
+		}
+	}
+}
+
+// surveyRetainParam: stores, into a field, of a view (re-slicing or array-pointer conversion) of a
+// byte-slice parameter, in any function (not only decoders).
+func surveyRetainParam(p *Program) {
+	for f := range p.AllFuncs {
+		if f.Blocks == nil || !isCirclFunc(f) || !sourceFunc(f) {
+			continue
+		}
+		for _, b := range f.Blocks {
+			for _, in := range b.Instrs {
+				st, ok := in.(*ssa.Store)
+				if !ok {
+					continue
+				}
+				if _, ok := st.Addr.(*ssa.FieldAddr); !ok {
+					continue
+				}
+				v := st.Val
+				view := false
+				for i := 0; i < 8; i++ {
+					switch x := v.(type) {
+					case *ssa.Slice:
+						v, view = x.X, true
+						continue
+					case *ssa.SliceToArrayPointer:
+						v, view = x.X, true
+						continue
+					case *ssa.ChangeType:
+						v = x.X
+						continue
+					case *ssa.Convert:
+						v = x.X
+						continue
+					}
+					break
+				}
+				par, ok := v.(*ssa.Parameter)
+				if !ok || !sliceLike(par.Type()) {
+					// cursor-style helpers: value returned by a call on something rooted at a param
+					continue
+				}
+				_ = view
+				fmt.Printf("RETAINPARAM %s: %s: field %s keeps %s\n", p.pos(st.Pos()), fname(f), descAddr(st.Addr), descVal(st.Val))
+			}
+		}
+	}
+}
+
+// bit01: the value is provably 0 or 1.
+func bit01(v ssa.Value, depth int) (yes bool, unknown bool) {
+	if depth > 6 {
+		return false, true
+	}
+	switch x := v.(type) {
+	case *ssa.Const:
+		if x.Value != nil && (x.Value.ExactString() == "0" || x.Value.ExactString() == "1") {
+			return true, false
+		}
+		return false, false
+	case *ssa.Convert:
+		return bit01(x.X, depth+1)
+	case *ssa.ChangeType:
+		return bit01(x.X, depth+1)
+	case *ssa.BinOp:
+		switch x.Op {
+		case token.AND:
+			for _, o := range []ssa.Value{x.X, x.Y} {
+				if k, ok := o.(*ssa.Const); ok && k.Value != nil && k.Value.ExactString() == "1" {
+					return true, false
+				}
+			}
+			a, ua := bit01(x.X, depth+1)
+			b, ub := bit01(x.Y, depth+1)
+			if a || b {
+				return true, false
+			}
+			return false, ua || ub
+		case token.OR, token.XOR:
+			a, ua := bit01(x.X, depth+1)
+			b, ub := bit01(x.Y, depth+1)
+			if a && b {
+				return true, false
+			}
+			return false, ua || ub || a || b
+		case token.SHR:
+			if k, ok := x.Y.(*ssa.Const); ok && k.Value != nil {
+				if bt, ok := x.X.Type().Underlying().(*types.Basic); ok && bt.Info()&types.IsUnsigned != 0 {
+					w := map[types.BasicKind]string{types.Uint8: "7", types.Uint16: "15", types.Uint32: "31", types.Uint64: "63", types.Uint: "63", types.Uintptr: "63"}[bt.Kind()]
+					if w != "" && k.Value.ExactString() == w {
+						return true, false
+					}
+				}
+			}
+			return false, false
+		case token.SUB:
+			// 1 - b
+			if k, ok := x.X.(*ssa.Const); ok && k.Value != nil && k.Value.ExactString() == "1" {
+				return bit01(x.Y, depth+1)
+			}
+			return false, false
+		}
+		return false, false
+	case *ssa.Phi:
+		all := true
+		unk := false
+		for _, e := range x.Edges {
+			if e == ssa.Value(x) {
+				continue
+			}
+			y, u := bit01(e, depth+1)
+			if !y {
+				all = false
+			}
+			unk = unk || u
+		}
+		return all, unk
+	case *ssa.Call:
+		if cal := x.Call.StaticCallee(); cal != nil {
+			n := cal.String()
+			if strings.HasPrefix(n, "crypto/subtle.ConstantTime") && !strings.HasSuffix(n, "Select") && !strings.HasSuffix(n, "Copy") {
+				return true, false
+			}
+		}
+		return false, true
+	case *ssa.Extract:
+		// carry / borrow of math/bits
+		if c, ok := x.Tuple.(*ssa.Call); ok && x.Index == 1 {
+			if cal := c.Call.StaticCallee(); cal != nil && (strings.HasPrefix(cal.String(), "math/bits.Add") || strings.HasPrefix(cal.String(), "math/bits.Sub")) {
+				return true, false
+			}
+		}
+		return false, true
+	case *ssa.Parameter, *ssa.UnOp, *ssa.Lookup, *ssa.Index, *ssa.Field:
+		return false, true
+	}
+	return false, true
+}
+
+func surveySelectors(p *Program) {
+	sel := map[string]int{"crypto/subtle.ConstantTimeCopy": 0, "crypto/subtle.ConstantTimeSelect": 0}
+	for f := range p.AllFuncs {
+		if f.Blocks == nil || !isCirclFunc(f) || !sourceFunc(f) {
+			continue
+		}
+		for _, b := range f.Blocks {
+			for _, in := range b.Instrs {
+				ci, ok := in.(ssa.CallInstruction)
+				if !ok {
+					continue
+				}
+				n := p.staticCalleeName(ci.Common())
+				idx, ok := sel[n]
+				if !ok {
+					continue
+				}
+				a := ci.Common().Args[idx]
+				y, u := bit01(a, 0)
+				fmt.Printf("SELECTOR %s: %s: %s(%s) provable01=%v unknown=%v\n", p.pos(ci.Pos()), fname(f), n, descVal(a), y, u)
+			}
+		}
+	}
+}
+
+// surveyS2AP: array pointers made from a slice (they alias the slice) that are stored into a field.
+func surveyS2AP(p *Program) {
+	for f := range p.AllFuncs {
+		if f.Blocks == nil || !isCirclFunc(f) || !sourceFunc(f) {
+			continue
+		}
+		for _, b := range f.Blocks {
+			for _, in := range b.Instrs {
+				st, ok := in.(*ssa.Store)
+				if !ok {
+					continue
+				}
+				v := st.Val
+				if ct, ok := v.(*ssa.ChangeType); ok {
+					v = ct.X
+				}
+				s2, ok := v.(*ssa.SliceToArrayPointer)
+				if !ok {
+					continue
+				}
+				if _, ok := st.Addr.(*ssa.FieldAddr); !ok {
+					continue
+				}
+				fmt.Printf("S2AP %s: %s: field %s keeps an array pointer into %s\n", p.pos(st.Pos()), fname(f), descAddr(st.Addr), descVal(s2.X))
 			}
 		}
 	}
